@@ -208,7 +208,7 @@ def configs(tier: str, seed: int):
     for D in (2, 3):
         for desc in class_menu(D, tier):
             vel = is_velocity(desc)
-            kinds = ("param", "buffer", "callable")
+            kinds = ("param", "buffer", "callable", "stateful")
             variants = [(True, 1)]
             if vel and not needs_ac_true(desc):
                 variants.append((False, 1))
@@ -216,8 +216,44 @@ def configs(tier: str, seed: int):
                 variants += [(False, 1), (True, 2)]  # batch / flag handling variants (explored to depth 3)
             for ac, N in variants:
                 for kind in kinds:
-                    out.append({"D": D, "desc": desc, "ac": ac, "kind": kind, "N": N, "seed": seed, "vel": vel})
+                    out.append({"D": D, "desc": desc, "ac": ac, "kind": kind, "N": N, "seed": seed, "vel": vel, "mirror": False})
+            if has_mirror(desc):
+                # negative / mixed-sign scale factors and matrices with negative determinant (mirror, flip): possible for
+                # fixed tensors and predicted parameters (optimisable scalings are exp(tanh(.)) > 0)
+                for kind in ("buffer", "callable"):
+                    out.append({"D": D, "desc": desc, "ac": True, "kind": kind, "N": 2 if tier == "thorough" else 1, "seed": seed, "vel": vel, "mirror": True})
     return out
+
+
+MIRROR_CLASSES = ("IsotropicScaling", "AnisotropicScaling", "HomogeneousTransform")
+
+
+def has_mirror(desc) -> bool:
+    cls = desc["cls"]
+    if cls in MIRROR_CLASSES or cls in ("SimilarityTransform", "AffineTransform", "FullAffineTransform"):
+        return True
+    if cls == "Generic":
+        return "Affine" in desc["transform"].split(" o ") and any(ch in desc["model"] for ch in "SA") and not is_velocity(desc)
+    if cls == "Sequential" and not is_velocity(desc):
+        return any(has_mirror(m) for m in desc["members"])
+    return False
+
+
+def mirrored(cls: str, D: int, v, n: int):
+    """Mirror variant of one group of setter values: negative isotropic factor, one flipped axis, negative determinant."""
+    if cls == "IsotropicScaling":
+        return [-float(v[0])]
+    if cls == "AnisotropicScaling":
+        out = [float(a) for a in v]
+        out[n % D] = -out[n % D]
+        if D == 3 and n % 2 == 1:
+            out[(n + 1) % D] = -out[(n + 1) % D]  # two flipped axes (rotation-like, still negative factors)
+        return out
+    if cls == "HomogeneousTransform":
+        M = np.array(v, dtype=np.float64)
+        M[:, n % D] = -M[:, n % D]
+        return M.tolist()
+    return v
 
 
 def depth_of(cfg, tier: str) -> int:
@@ -225,6 +261,12 @@ def depth_of(cfg, tier: str) -> int:
     parameters (their state space grows with every edit), velocity models 4 / 3; the extra thorough variants
     (N = 2 groups, align_corners=False for linear models) vary the batch / flag handling and are explored to depth 3."""
     vel, kind = cfg["vel"], cfg.get("kind", "param")
+    if kind == "stateful":
+        if tier == "quick":
+            return 2  # the obligations of a linked inverse show after inverse + one evaluation / update
+        kind = "callable"
+    if cfg.get("mirror"):
+        return 2 if tier == "quick" else 3  # the sign of the factors matters, not the history depth
     if tier == "quick":
         return 2 if vel else 3
     if cfg.get("N", 1) > 1 or (not vel and not cfg.get("ac", True)):
@@ -242,7 +284,8 @@ def bounds(tier):
         "depth_linear": {k: depth_of({"vel": False, "kind": k}, tier) for k in ("param", "buffer", "callable")},
         "depth_velocity": {k: depth_of({"vel": True, "kind": k}, tier) for k in ("param", "buffer", "callable")},
         "depth_extra_variants(N=2, ac=False)": 3,
-        "parameter_kinds": ["param", "buffer", "callable"],
+        "parameter_kinds": ["param", "buffer", "callable", "stateful (callable whose output differs between invocations)"],
+        "mirror_variants(negative / mixed-sign scale factors, det < 0; depth 2 quick / 3 thorough)": sum(1 for c_ in cf if c_.get("mirror")),
         "order_tests": len(order_cases(tier, 0)),
         "expflow_tests": len(expflow_cases(tier, 0)),
     }
@@ -250,25 +293,54 @@ def bounds(tier):
 
 # ---------------------------------------------------------------------------
 class Net(torch.nn.Module):
-    """Callable that provides parameters: W * c (c = conditioning scalar, default 1)."""
+    """Callable that provides parameters: W * c (c = conditioning scalar, default 1); counts its invocations.
 
-    def __init__(self, W: torch.Tensor):
+    Stateful variant (menu given): a deterministic predictor whose output differs between invocations - the k-th
+    invocation returns menu[k % 3] * c."""
+
+    def __init__(self, W: torch.Tensor, menu=None):
         super().__init__()
         self.W = torch.nn.Parameter(W.clone())
+        self.menu = None if menu is None else torch.nn.ParameterList([torch.nn.Parameter(v.clone()) for v in menu])
+        self.k = 0
+        self.count = 0
+
+    def tensors(self, key=None):
+        return [self.W] if self.menu is None else list(self.menu)
 
     def forward(self, c: float = 1.0):
-        return self.W * c
+        self.count += 1
+        if self.menu is None:
+            return self.W * c
+        v = self.menu[self.k % len(self.menu)] * c
+        self.k += 1
+        return v
 
 
 class DictNet(torch.nn.Module):
-    """Callable that provides the parameter dictionary of a GenericSpatialTransform: {name: W[name] * c}."""
+    """Callable that provides the parameter dictionary of a GenericSpatialTransform: {name: W[name] * c}; stateful variant as Net."""
 
-    def __init__(self, W: dict):
+    def __init__(self, W: dict, menu=None):
         super().__init__()
         self.W = torch.nn.ParameterDict({k: torch.nn.Parameter(v.clone()) for k, v in W.items()})
+        self.menu = None if menu is None else torch.nn.ModuleList(
+            [torch.nn.ParameterDict({k: torch.nn.Parameter(v.clone()) for k, v in m.items()}) for m in menu])
+        self.k = 0
+        self.count = 0
+
+    def tensors(self, key=None):
+        return [self.W[key]] if self.menu is None else [m[key] for m in self.menu]
 
     def forward(self, c: float = 1.0):
-        return {k: v * c for k, v in self.W.items()}
+        self.count += 1
+        if self.menu is None:
+            return {k: v * c for k, v in self.W.items()}
+        m = self.menu[self.k % len(self.menu)]
+        self.k += 1
+        return {k: v * c for k, v in m.items()}
+
+
+CALLABLE_KINDS = ("callable", "stateful")
 
 
 def _tensor(v):
@@ -319,6 +391,10 @@ class System:
         self.rgrid = rg.ref_grid(gspec)
         self.grid = rg.real_grid(gspec)
         self.leaves = []
+        self.callable_kind = self.kind in CALLABLE_KINDS
+        self.stateful = self.kind == "stateful"
+        self.mirror = bool(cfg.get("mirror"))
+        self.problems = []  # (kind, detail) observed inside apply() / evaluate_call()
         self.t = self._build(cfg["desc"], (), 0)
         self.inv = None
         # reference flags
@@ -335,6 +411,8 @@ class System:
         D, N = self.D, self.N
         if cls in LINEAR_ELEMENTARY:
             vals = {w: [setter_values(cls, D, w, self.seed, shift + n) for n in range(N)] for w in ("V0", "V1", "R")}
+            if self.mirror:
+                vals = {w: [mirrored(cls, D, g, n) for n, g in enumerate(v)] for w, v in vals.items()}
             for w, v in vals.items():
                 for g in v:
                     M = rt.linear_matrix(cls, D, [g], None)[0]
@@ -357,10 +435,14 @@ class System:
         # callable: scratch object to learn the data shape, then the real one with a Net
         scratch = ctor(False)
         vals = self._values(cls, shift, scratch)
-        net = Net(_tensor(vals["V0"]))
+        net = self._net(vals)
         m = ctor(net)
         self.leaves.append(Leaf(path, cls, m, net, vals))
         return m
+
+    def _net(self, vals):
+        menu = [_tensor(vals[w]) for w in ("V0", "V1", "R")] if self.stateful else None
+        return Net(_tensor(vals["V0"]), menu)
 
     def _build(self, desc, path, shift):
         import deepali.spatial as S
@@ -374,13 +456,13 @@ class System:
             return self._leaf(cls, path, shift, lambda p: getattr(S, cls)(grid, groups=N, params=p, **kw))
         if cls in LINEAR_COMPOSITE:
             parts = LINEAR_COMPOSITE[cls]
-            if self.kind == "callable":
+            if self.callable_kind:
                 # members are created by the composite's constructor from the callables
                 nets, pend = {}, []
                 for j, (name, mcls) in enumerate(parts):
                     scratch = getattr(S, mcls)(grid, groups=N, params=False)
                     vals = self._values(mcls, shift + j, scratch)
-                    nets[name] = Net(_tensor(vals["V0"]))
+                    nets[name] = self._net(vals)
                     pend.append((name, mcls, vals))
                 t = getattr(S, cls)(grid, groups=N, **nets)
                 for name, mcls, vals in pend:
@@ -402,7 +484,7 @@ class System:
 
             cfgobj = TransformConfig(transform=desc["transform"], affine_model=desc["model"], rotation_model="ZXZ",
                                      control_point_spacing=2 if "FFD" in desc["transform"] else 1, scaling_and_squaring_steps=5)
-            if self.kind == "callable":
+            if self.callable_kind:
                 probe = GenericSpatialTransform(grid, params=False, config=cfgobj)
                 W, pend = {}, []
                 for j, (name, m) in enumerate(probe.named_transforms()):
@@ -410,7 +492,8 @@ class System:
                     vals = self._values(mcls if mcls in LINEAR_ELEMENTARY else "dense", j, m)
                     W[name] = _tensor(vals["V0"])
                     pend.append((name, mcls, vals))
-                net = DictNet(W)
+                menu = [{name: _tensor(vals[w]) for name, _, vals in pend} for w in ("V0", "V1", "R")] if self.stateful else None
+                net = DictNet(W, menu)
                 t = GenericSpatialTransform(grid, params=net, config=cfgobj)
                 for name, mcls, vals in pend:
                     self.leaves.append(Leaf(path + (name,), mcls, t[name], net, vals, key=name))
@@ -427,22 +510,38 @@ class System:
     # -- alphabet ------------------------------------------------------------------------------------------
     def enabled(self, op: str) -> bool:
         if op == "recond":
-            return self.kind == "callable"
+            return self.callable_kind
         if op == "replace":
-            return self.kind != "callable"  # documented ReadOnlyParameters
+            return not self.callable_kind  # documented ReadOnlyParameters
+        if op == "edit_copy":
+            return not self.stateful  # the stateful predictor cycles through the menu itself
         if op == "update_inv":
             # a linked inverse reads the parameters the forward transform has buffered ("directly access the parameters
             # from this transformation"): updating it while the forward's predicted parameters are not current is stale
             # usage (documented AssertionError "params must be set first" for a never-updated generic transform)
-            return self.has_inv and not (self.link and self.kind == "callable" and not self.t_current)
+            return self.has_inv and not (self.link and self.callable_kind and not self.t_current)
         if op == "call":
             return self.has_inv
         return True
 
-    def _param_tensor(self, leaf: Leaf):
+    def _param_tensors(self, leaf: Leaf):
         if leaf.net is None:
-            return leaf.module.params
-        return leaf.net.W[leaf.key] if leaf.key is not None else leaf.net.W
+            return [leaf.module.params]
+        return leaf.net.tensors(leaf.key)
+
+    def _param_tensor(self, leaf: Leaf):
+        return self._param_tensors(leaf)[0]
+
+    def nets(self):
+        seen, out = set(), []
+        for leaf in self.leaves:
+            if leaf.net is not None and id(leaf.net) not in seen:
+                seen.add(id(leaf.net))
+                out.append(leaf.net)
+        return out
+
+    def invocations(self) -> int:
+        return sum(n.count for n in self.nets())
 
     def _raw_of(self, leaf: Leaf, which: str):
         """Raw parameter tensor that the public setter produces for the menu value `which` (scratch object)."""
@@ -473,20 +572,25 @@ class System:
                 self.inv = t.inv
             self.has_inv = True
             self.link = op in ("inv_link", "inv_link_ub", "inv_prop")
-            self.defined = True
+            # stateful predictor: an unlinked inverse invokes the predictor itself and obtains other parameters (rule 1)
+            self.defined = self.link or not self.stateful
             self.inv_current = self.t_current and op in ("inv_ub", "inv_link_ub", "inv_prop")
             return None
         if op in ("edit_add", "edit_copy"):
             with torch.no_grad():
                 for leaf in self.leaves:
-                    p = self._param_tensor(leaf)
-                    if op == "edit_add":
-                        if "DELTA" in leaf.values:
-                            p.add_(_tensor(leaf.values["DELTA"]))
+                    for p in self._param_tensors(leaf):
+                        if op == "edit_add":
+                            if "DELTA" in leaf.values:
+                                p.add_(_tensor(leaf.values["DELTA"]))
+                            elif self.mirror and leaf.cls in ("IsotropicScaling", "AnisotropicScaling"):
+                                p.add_(EDIT_DELTA * torch.sign(p))  # away from zero: factors keep their sign and condition
+                            elif self.mirror and leaf.cls == "HomogeneousTransform":
+                                p[..., -1].add_(EDIT_DELTA)  # translation column only: determinant and condition unchanged
+                            else:
+                                p.add_(EDIT_DELTA)
                         else:
-                            p.add_(EDIT_DELTA)
-                    else:
-                        p.copy_(self._raw_of(leaf, "V1"))
+                            p.copy_(self._raw_of(leaf, "V1"))
             self.t_current = False
             self.inv_current = False
             return None
@@ -509,12 +613,17 @@ class System:
         if op == "update_t":
             t.update()
             self.t_current = True
+            if self.stateful:
+                self.inv_current = False  # the forward transform now holds the next prediction
             return None
         if op == "update_inv":
+            n0 = self.invocations()
             self.inv.update()
+            if self.link and self.callable_kind and self.invocations() != n0:
+                self.problems.append(("linked-inverse-invokes-predictor", f"update() of an inverse made with link=True called the parameter callable {self.invocations() - n0} time(s)"))
             # a linked inverse copies the forward's *buffered* parameters (t.p for callable parameters):
             # its buffers are current only if the forward's are
-            self.inv_current = self.defined and (self.t_current or not (self.link and self.kind == "callable"))
+            self.inv_current = self.defined and (self.t_current or not (self.link and self.callable_kind))
             return None
         if op == "call":
             return self.evaluate_call()
@@ -540,9 +649,16 @@ class System:
         x64 = self.probe()
         x = _tensor(x64)
         y = self.t(x)
+        n0 = self.invocations()
         x1 = self.inv(y)
-        z = self.inv(x)
-        x2 = self.t(z)
+        if self.link and self.callable_kind and self.invocations() != n0:
+            self.problems.append(("linked-inverse-invokes-predictor", f"evaluating an inverse made with link=True called the parameter callable {self.invocations() - n0} time(s)"))
+        if self.stateful:
+            # t(inv(x)) would re-invoke the predictor for t after inv read the previous prediction: only inv(t(x)) is judged
+            z, x2 = x1, x
+        else:
+            z = self.inv(x)
+            x2 = self.t(z)
         self.t_current = True
         self.inv_current = self.defined
         return {"x": x64, "y": y.detach().double().numpy(), "x1": x1.detach().double().numpy(),
@@ -559,6 +675,8 @@ class System:
         xb = np.broadcast_to(x, obs["y"].shape)
         moved = float(np.abs(obs["y"] - xb).max())
         for name, got in (("inv(t(x))", obs["x1"]), ("t(inv(x))", obs["x2"])):
+            if self.stateful and name == "t(inv(x))":
+                continue
             if not np.all(np.isfinite(got)):
                 out.append((f"{name}/non-finite", "result contains nan/inf"))
                 continue
@@ -648,9 +766,11 @@ class System:
         parts = [repr((self.has_inv, self.link, self.defined, self.t_current, self.inv_current, self.cond)).encode()]
         fwd = {}
         for leaf in self.leaves:
-            p = self._param_tensor(leaf)
-            parts.append(b"P" + tensor_bytes(p))
+            for p in self._param_tensors(leaf):
+                parts.append(b"P" + tensor_bytes(p))
             fwd[leaf.path] = leaf.module
+        if self.stateful:
+            parts.append(repr([n.k % 3 for n in self.nets()]).encode())  # which menu entry the next invocation returns
         for who, root in (("t", self.t), ("i", self.inv)):
             if root is None:
                 parts.append(b"none")
@@ -770,7 +890,7 @@ def ops_sig(hist) -> str:
 def run_history(cfg, hist, acc: Acc = None, judge: bool = True):
     """Execute one history on fresh objects. Returns (key or None, [(sig, detail)], nontrivial, outcome_bytes)."""
     lab, fam = label(cfg["desc"]), family(cfg["desc"])
-    tail = f"{lab}/kind={cfg['kind']}"
+    tail = f"{lab}/kind={cfg['kind']}" + ("/mirror" if cfg.get("mirror") else "")
     out = []
     st, sysm = guarded(System, cfg)
     if st == "raises":
@@ -786,6 +906,10 @@ def run_history(cfg, hist, acc: Acc = None, judge: bool = True):
             # an exception is named by the letter, its type and the innermost deepali frame (the history is in the case)
             out.append((f"C07/{op}/{fam}/{raises_kind(res)}/{tail}", exc_text(res)))
             return None, out, False, b"raise"
+        if sysm.problems:
+            for kind, detail in sysm.problems:
+                out.append((f"C07/{op}/{fam}/{ops_sig(hist[: i + 1])}/{kind}/{tail}", detail))
+            return None, out, False, b"problem"
         if op == "call" and judge and sysm.defined:
             probs, nt = sysm.judge_call(res)
             nontriv |= nt
@@ -813,6 +937,7 @@ def run_history(cfg, hist, acc: Acc = None, judge: bool = True):
                 out.append((f"C07/state/{fam}/call/{raises_kind(res)}/{tail}", exc_text(res)))
             else:
                 probs, nt = sysm.judge_call(res)
+                probs = list(sysm.problems) + probs
                 nontriv |= nt
                 obytes += res["bytes"]
                 for kind, detail in probs:
@@ -827,8 +952,9 @@ def explore(cfg, first_op: str, depth: int, acc: Acc):
     seen = set()
     frontier = [[first_op]]
     level = 1
-    ckey = (label(cfg["desc"]), cfg["D"], cfg["ac"], cfg["kind"], cfg["N"])
-    if (first_op == "recond" and cfg["kind"] != "callable") or (first_op == "replace" and cfg["kind"] == "callable"):
+    ckey = (label(cfg["desc"]), cfg["D"], cfg["ac"], cfg["kind"], cfg["N"], bool(cfg.get("mirror")))
+    ck = cfg["kind"] in CALLABLE_KINDS
+    if (first_op == "recond" and not ck) or (first_op == "replace" and ck) or (first_op == "edit_copy" and cfg["kind"] == "stateful"):
         acc.undef("op-not-enabled:" + first_op)
         return
     while frontier and level <= depth:
@@ -861,9 +987,11 @@ def explore(cfg, first_op: str, depth: int, acc: Acc):
             if level < depth:
                 has_inv = any(o in MAKE_INV for o in hist)
                 for op in OPS:
-                    if op == "recond" and cfg["kind"] != "callable":
+                    if op == "recond" and not ck:
                         continue
-                    if op == "replace" and cfg["kind"] == "callable":
+                    if op == "replace" and ck:
+                        continue
+                    if op == "edit_copy" and cfg["kind"] == "stateful":
                         continue
                     if op in ("update_inv", "call") and not has_inv:
                         continue
@@ -1010,7 +1138,7 @@ def shards(tier: str, seed: int):
         for op in OPS:
             if op in ("update_inv", "call"):
                 continue  # not enabled in the initial state (no inverse yet)
-            out.append({"tier": tier, "seed": seed, "sub": "history", "cfg": i, "first": op, "lab": f"{label(cfg['desc'])}/D{cfg['D']}/{cfg['kind']}"})
+            out.append({"tier": tier, "seed": seed, "sub": "history", "cfg": i, "first": op, "lab": f"{label(cfg['desc'])}/D{cfg['D']}/{cfg['kind']}" + ("/mirror" if cfg.get("mirror") else "")})
     oc = order_cases(tier, seed)
     for i in range(0, len(oc), 4):
         out.append({"tier": tier, "seed": seed, "sub": "order", "lo": i, "hi": min(i + 4, len(oc))})
